@@ -72,10 +72,11 @@ Qed.
 Lemma resolve_val E y w :
   resolve E y = NVal w <-> exists id, lookup (cp_syms E) (cp_scope E) y = Some (KValDecl id) /\ assoc_nat id (cp_vals E) = Some w.
 Proof.
-  unfold resolve. destruct (lookup (cp_syms E) (cp_scope E) y) as [[id|]|].
+  unfold resolve. destruct (lookup (cp_syms E) (cp_scope E) y) as [[id| |]|].
   - destruct (assoc_nat id (cp_vals E)) as [v|] eqn:Ev.
     + split; [intros H; inversion H; subst; eauto|intros (id' & H1 & H2); inversion H1; subst; congruence].
     + split; [discriminate|intros (id' & H1 & H2); inversion H1; subst; congruence].
+  - split; [discriminate|intros (id' & H1 & _); discriminate].
   - split; [discriminate|intros (id' & H1 & _); discriminate].
   - split; [discriminate|intros (id' & H1 & _); discriminate].
 Qed.
@@ -221,7 +222,7 @@ Lemma sym_procs_global x : forall ps n st,
   find_sym (snd (sym_procs ps n st)) ""%string x = find_sym st ""%string x.
 Proof.
   induction ps as [|q r IH]; intros n st H; [reflexivity|].
-  cbn [sym_procs]. rewrite sym_formals_spec, sym_decls_spec. cbn [snd].
+  cbn [sym_procs]. unfold sym_proc_step. rewrite sym_formals_spec, sym_decls_spec. cbn [snd].
   destruct (H q (or_introl eq_refl)) as [Hq1 Hq2].
   rewrite IH by (intros q' Hq'; apply H; right; exact Hq').
   rewrite find_sym_app, find_sym_other_scope.
@@ -299,8 +300,8 @@ Definition pnames (q : proc) : list string := map XConstProp.formal_name (formal
 Lemma sym_procs_cons q r n st :
   sym_procs (q :: r) n st =
   sym_procs r (n + nvals (locals q))%nat
-    (rev (dentries (pname q) (locals q) n) ++ rev (fentries (pname q) (formals q)) ++ ((""%string, pname q), KOther) :: st).
-Proof. cbn [sym_procs]. rewrite sym_formals_spec, sym_decls_spec. reflexivity. Qed.
+    (rev (dentries (pname q) (locals q) n) ++ rev (fentries (pname q) (formals q)) ++ ((""%string, pname q), KProc) :: st).
+Proof. cbn [sym_procs]. unfold sym_proc_step. rewrite sym_formals_spec, sym_decls_spec. reflexivity. Qed.
 
 (* procedures with other names add nothing to this scope *)
 Lemma sym_procs_scope sc x : sc <> ""%string -> forall ps n st,
